@@ -93,17 +93,22 @@ theorem exact_dom (n0 N : Nat) (B B0 : Bnds) (D : List Def) (x : Asg)
 
 /-! ## conversion blocks as steps of the composition theorem -/
 
-/-- the step a block stands for: constants and natively accepted definitions are enforced as `res = f(args)`
+/-- the step a block stands for: for a removed definition nothing is delivered; constants and natively accepted definitions are enforced as `res = f(args)`
 (a fixed variable's bounds, resp. the solver), gadget blocks by their rows over their auxiliary variables -/
 def Block.toStep (b : Block) : Step :=
-  if b.native || isConst b.d then Step.native b.d b.lo
+  if b.removed then { b.d with Deliv := fun _ => True, lo := b.lo, hi := b.lo }
+  else if b.native || isConst b.d then Step.native b.d b.lo
   else { b.d with Deliv := fun y => auxOk b.lo y b.vars ∧ ∀ c ∈ b.cons, c.sat y, lo := b.lo, hi := b.lo + b.vars.length }
 
 theorem Block.toStep_def (b : Block) : b.toStep.toDef = b.d := by
-  unfold Block.toStep; split <;> rfl
+  unfold Block.toStep; split
+  · rfl
+  · split <;> rfl
 
 theorem Block.toStep_lo (b : Block) : b.toStep.lo = b.lo := by
-  unfold Block.toStep; split <;> rfl
+  unfold Block.toStep; split
+  · rfl
+  · split <;> rfl
 
 theorem stepOK_native' (N n : Nat) (Dom : Asg → Prop) (d : Def) (hn : N ≤ n) (hres : d.res < n) (hvars : ∀ v ∈ d.f.vars, v < n) :
     StepOK N Dom (Step.native d n) := by
